@@ -4,7 +4,7 @@ Generated (message, RelayState, destination, typ) tuples are packaged with the R
 and artifact encoders and read back with independent stdlib readers (urllib.parse, html.parser,
 ElementTree, zlib/base64) and with the library's own decoders.
 """
-import base64, zlib
+import base64, re, zlib
 from harness.runner import Part, Violation
 
 PROPERTY = 'C14'
@@ -103,10 +103,10 @@ def lib_messages():
     """messages built by the library's own classes with generated text content"""
     from hypothesis import strategies as st
     t = xml_texts()
-    return st.tuples(st.integers(0, 4), t, t, st.booleans())
+    return st.tuples(st.integers(0, 12), t, t, st.booleans(), st.booleans())
 
 
-def _lib_message(kind, t1, t2, signed):
+def _lib_message(kind, t1, t2, signed, empties=False):
     from saml2_tophat import samlp, saml, xmldsig as ds
     sig = None
     if signed:
@@ -118,13 +118,17 @@ def _lib_message(kind, t1, t2, signed):
     iss = saml.Issuer(text='urn:idp:' + t2[:5])
     if kind == 0:
         return samlp.AuthnRequest(id='id1', version='2.0', issue_instant='2024-01-01T00:00:00Z', issuer=iss, signature=sig,
-                                  destination='https://idp.example.org/sso', provider_name=t1)
+                                  destination='https://idp.example.org/sso', provider_name=t1,
+                                  conditions=saml.Conditions(one_time_use=[saml.OneTimeUse()]) if empties else None,
+                                  extensions=samlp.Extensions() if empties else None)
     if kind == 1:
         return samlp.LogoutRequest(id='id1', version='2.0', issue_instant='2024-01-01T00:00:00Z', issuer=iss, signature=sig,
                                    name_id=saml.NameID(text=t1), reason=t2)
     if kind == 2:
         a = saml.Assertion(id='a1', version='2.0', issue_instant='2024-01-01T00:00:00Z', issuer=iss,
-                           subject=saml.Subject(name_id=saml.NameID(text=t1)),
+                           subject=saml.Subject(name_id=saml.NameID(text=t1), subject_confirmation=[saml.SubjectConfirmation(
+                               method=saml.SCM_BEARER, subject_confirmation_data=saml.SubjectConfirmationData())] if empties else []),
+                           conditions=saml.Conditions(one_time_use=[saml.OneTimeUse()]) if empties else None,
                            attribute_statement=[saml.AttributeStatement(attribute=[saml.Attribute(name='n', attribute_value=[saml.AttributeValue(text=t2)])])])
         return samlp.Response(id='id1', version='2.0', issue_instant='2024-01-01T00:00:00Z', issuer=iss, signature=sig,
                               status=samlp.Status(status_code=samlp.StatusCode(value=samlp.STATUS_SUCCESS), status_message=samlp.StatusMessage(text=t2)),
@@ -132,8 +136,35 @@ def _lib_message(kind, t1, t2, signed):
     if kind == 3:
         return samlp.AttributeQuery(id='id1', version='2.0', issue_instant='2024-01-01T00:00:00Z', issuer=iss, signature=sig,
                                     subject=saml.Subject(name_id=saml.NameID(text=t1)))
-    return samlp.LogoutResponse(id='id1', version='2.0', issue_instant='2024-01-01T00:00:00Z', issuer=iss, signature=sig, in_response_to=t1,
-                                status=samlp.Status(status_code=samlp.StatusCode(value=samlp.STATUS_SUCCESS)))
+    if kind == 4:
+        return samlp.LogoutResponse(id='id1', version='2.0', issue_instant='2024-01-01T00:00:00Z', issuer=iss, signature=sig, in_response_to=t1,
+                                    status=samlp.Status(status_code=samlp.StatusCode(value=samlp.STATUS_SUCCESS)))
+    # the less travelled message types of the SOAP-bound profiles
+    common = dict(id='id1', version='2.0', issue_instant='2024-01-01T00:00:00Z', issuer=iss, signature=sig)
+    ok = samlp.Status(status_code=samlp.StatusCode(value=samlp.STATUS_SUCCESS), status_message=samlp.StatusMessage(text=t2))
+    if kind == 5:
+        if empties:   # elements whose presence is the information
+            return samlp.ManageNameIDRequest(name_id=saml.NameID(text=t1), terminate=samlp.Terminate(), **common)
+        return samlp.ManageNameIDRequest(name_id=saml.NameID(text=t1), new_id=samlp.NewID(text=t2), **common)
+    if kind == 6:
+        return samlp.NameIDMappingRequest(name_id=saml.NameID(text=t1), name_id_policy=samlp.NameIDPolicy(format=saml.NAMEID_FORMAT_PERSISTENT, sp_name_qualifier=t2), **common)
+    if kind == 7:
+        return samlp.AssertionIDRequest(assertion_id_ref=[saml.AssertionIDRef(text='_' + re.sub(r'[^A-Za-z0-9]', 'x', t1)), saml.AssertionIDRef(text='_b')], **common)
+    if kind == 8:
+        return samlp.AuthnQuery(subject=saml.Subject(name_id=saml.NameID(text=t1)), session_index=t2, **common)
+    if kind == 9:
+        return samlp.ArtifactResolve(artifact=samlp.Artifact(text='AAQAA' + re.sub(r'[^A-Za-z0-9]', 'x', t1)), **common)
+    if kind == 10:
+        return samlp.ArtifactResponse(in_response_to=t1, status=ok, **common)
+    if kind == 11:
+        return samlp.ManageNameIDResponse(in_response_to=t1, status=ok, **common)
+    return samlp.NameIDMappingResponse(in_response_to=t1, status=ok, name_id=saml.NameID(text=t2), **common)
+
+
+# message type names the receiving entity uses to pick the SOAP decoder (the msgtype attributes of saml2_tophat.request / .response)
+MSGTYPES = {0: ['authn_request'], 1: ['logout_request'], 2: ['response', 'attribute_response', 'authn_query_response', 'assertion_id_response'], 3: ['attribute_query'],
+            4: ['logout_response', 'response'], 5: ['manage_name_id_request'], 6: ['name_id_mapping_request'], 7: ['assertion_id_request'], 8: ['authn_query'],
+            9: ['artifact_resolve'], 10: ['artifact_response'], 11: ['manage_name_id_response'], 12: ['name_id_mapping_response']}
 
 
 def message_strategy(xml_only=False):
@@ -326,6 +357,9 @@ def run_soap(case):
         env = info['data']
     elif via == 'obj' and case['msg'][0] == 'lib':
         env = pack.make_soap_enveloped_saml_thingy(_lib_message(*case['msg'][1]), headers)
+    elif via == 'soapmod' and case['msg'][0] == 'lib':
+        # the envelope builder of saml2_tophat.soap, as used for the ECP/PAOS request
+        env = soap.make_soap_enveloped_saml_thingy(_lib_message(*case['msg'][1]), headers)
     else:
         env = pack.make_soap_enveloped_saml_thingy(msg, headers)
     envb = env if isinstance(env, bytes) else env.encode('utf-8')
@@ -365,6 +399,16 @@ def run_soap(case):
             raise Violation('soap-parse-class', 'parse_soap_enveloped_saml body differs')
         if headers and (len(h) != 2 or h['{urn:oasis:names:tc:SAML:2.0:profiles:SSO:ecp}RelayState'].text != (case['rs'][:40] or 'rs')):
             raise Violation('paos-parse-headers', 'header parts %r' % (list(h),))
+        if not headers:
+            # the decoder the receiving entity selects by message type
+            from saml2_tophat.entity import Entity
+            for mt in MSGTYPES[case['msg'][1][0]]:
+                try:
+                    got = Entity.unravel(envb, BINDING_SOAP, mt)
+                except Exception as e:
+                    raise Violation('soap-unravel', 'Entity.unravel(.., SOAP, %r) fails for a packed %s: %s: %s' % (mt, type(obj).__name__, type(e).__name__, e))
+                if _shape(ET.fromstring(got)) != _shape(want):
+                    raise Violation('soap-unravel', 'Entity.unravel(.., SOAP, %r) gives %r' % (mt, got[:200]))
     sp = '\n' in msg.split('?>', 1)[-1].strip() or _special(case['rs'] if headers else '')
     lab = 'soap|' + case['msg'][0] + ('|paos' if headers else '') + ('|decl' if msg.startswith('<?xml') else '') + ('|newline' if '\n' in msg.split('?>', 1)[-1].strip() else '')
     return lab, bool(sp or msg.startswith('<?xml'))
@@ -399,6 +443,21 @@ def run_artifact(case):
         raise Violation('artifact-url', 'query %r expected %r' % (got[:3], exp[:3]))
     if e.artifact[dict(got)['SAMLart']] != msg:
         raise Violation('artifact-message', 'stored message differs')
+    if case['msg'][0] == 'lib':
+        # the message as the resolver hands it back: embedded in an ArtifactResponse (create_artifact_response) and taken out again
+        # (parse_artifact_resolve_response)
+        from xml.etree import ElementTree as ET
+        from saml2_tophat import samlp, saml, element_to_extension_element, extension_elements_to_elements
+        obj = _lib_message(*case['msg'][1])
+        a3 = e.use_artifact(obj, idx)
+        ar = samlp.ArtifactResponse(id='ar1', version='2.0', issue_instant='2024-01-01T00:00:00Z', in_response_to='r1',
+                                    status=samlp.Status(status_code=samlp.StatusCode(value=samlp.STATUS_SUCCESS)),
+                                    extension_elements=[element_to_extension_element(e.artifact[a3])])
+        back = samlp.artifact_response_from_string(ar.to_string())
+        elems = extension_elements_to_elements(back.extension_elements, [samlp, saml])
+        if len(elems) != 1 or _shape(ET.fromstring(elems[0].to_string())) != _shape(ET.fromstring(msg.encode('utf-8'))):
+            raise Violation('artifact-response-content', 'message taken out of the ArtifactResponse differs: %r vs %r' % (
+                elems and elems[0].to_string()[:300], msg[:300]))
     art2 = e.use_artifact(msg, idx)
     if art2 == art:
         raise Violation('artifact-not-unique', 'two artifacts for the same message are equal')
@@ -413,7 +472,7 @@ def parts(tier):
 
     def soap_cases():
         return st.fixed_dictionaries({'msg': message_strategy(xml_only=True), 'rs': relay_states(), 'dest': destinations(),
-                                      'typ': st.just('SAMLRequest'), 'via': st.sampled_from(['pack', 'entity', 'obj']), 'paos': st.booleans()})
+                                      'typ': st.just('SAMLRequest'), 'via': st.sampled_from(['pack', 'entity', 'obj', 'soapmod']), 'paos': st.booleans()})
 
     def art_cases():
         return st.fixed_dictionaries({'msg': message_strategy(), 'rs': relay_states(), 'dest': destinations(),
